@@ -210,27 +210,61 @@ def outToSexp (stack : List (Pop Bits)) (o : Outcome) : Sexp :=
 
 /-- Reads the witness off the observed result: for every kept individual the first not yet used
 position in `parents ++ offspring` holding an equal individual (tags may repeat when offspring are
-clones of parents), followed by the remaining positions in ascending order. -/
-def recoverKept (all : Pop Bits) : Pop Bits → List Nat → List Nat
-  | [], used => used.reverse
-  | x :: xs, used =>
-    let cand := (List.range all.length).find? fun i => !used.contains i && all[i]? == some x
-    recoverKept all xs (cand.getD all.length :: used)
+clones of parents), followed by the remaining positions in ascending order.  Arrays only for speed
+(populations of several hundred individuals); `used[i]` marks positions already taken. -/
+def recoverKept (all : Array (Ind Bits)) : Pop Bits → Array Bool → List Nat → List Nat × Array Bool
+  | [], used, acc => (acc.reverse, used)
+  | x :: xs, used, acc =>
+    match (List.range all.size).find? fun i => !(used.getD i true) && all[i]? == some x with
+    | some i => recoverKept all xs (used.setIfInBounds i true) (i :: acc)
+    | none => recoverKept all xs used (all.size :: acc)
 
 def recoverWitness (all r : Pop Bits) : List Nat :=
-  let kept := recoverKept all r []
-  kept ++ (List.range all.length).filter (fun i => !kept.contains i)
+  let (kept, used) := recoverKept all.toArray r (Array.replicate all.length false) []
+  kept ++ (List.range all.length).filter (fun i => !(used.getD i true))
+
+/-- Executable "is a permutation of" (multiset equality). -/
+def permB {α : Type} [DecidableEq α] (r r' : List α) : Bool :=
+  r.length == r'.length && r.all fun x => r.count x == r'.count x
 
 structure CaseResult where
   agree : Bool
   cls : Option String
   model : Sexp
 
-/-- Input `(rep (op …) (seed s) (stack P*))` (top first), output `((res R) (stack P*))`. -/
-def handleCase (input implOut : Sexp) : Option CaseResult := do
-  let args ← tagged? "rep" input
+/-- `MuPlusLambda` is compared up to the order of the result: the statement (and the operator's
+documentation) fixes *which* individuals survive (up to ties), not their order inside the population;
+`mu_plus_lambda_order_free` shows that the property predicate cannot tell two orders apart. -/
+def agreeUpToOrder (op : Op) (mstack : List (Pop Bits)) (mout : Outcome)
+    (stack' : List (Pop Bits)) (out : Outcome) : Bool :=
+  match op, mout, out, mstack, stack' with
+  | .muPlusLambda _, .ok, .ok, m :: mrest, r :: rest => decide (mrest = rest) && permB m r
+  | _, _, _, _, _ => false
+
+/-- Outside the property's quantifier (an unevaluated individual among the two top populations)
+`MuPlusLambda` is not pinned to the exact point at which `objective()` panics: whether the sort ever
+asks for a key (one individual; everything fits) is an implementation detail.  Accepted there: the
+panic outcome (both populations gone), or an `Ok` whose result is, up to order, what the sort gives
+when unevaluated individuals are ordered first and nothing panics. -/
+def agreeOutsideDomain (op : Op) (w : List Nat) (stack stack' : List (Pop Bits)) (out : Outcome) : Bool :=
+  match op, stack with
+  | .muPlusLambda mu, o :: p :: rest =>
+    let all := p ++ o
+    all.any (fun i => i.obj.isNone) &&
+    (match out, stack' with
+     | .panic, s => decide (s = rest)
+     | .ok, r :: rest' => decide (rest' = rest) && permB r (((permute all w).mergeSort leInd).take mu)
+     | _, _ => false)
+  | _, _ => false
+
+/-- Input `(rep (op …) (seed s) (stack P*) [(via replace)])` (top first), output
+`((res R) (stack P*))`.  With `(via replace)` the harness called the trait method
+`Replacement::replace` directly on exactly two populations and reports `(stack (pop r))` for `Ok(r)`
+and `(stack)` otherwise — which is what `step` gives on a two-population stack. -/
+def handleRep (args : List Sexp) (implOut : Sexp) : Option CaseResult := do
   let (opS, stackS) ← match args with
     | [o, _, s] => some (o, s)
+    | [o, _, s, _] => some (o, s)
     | _ => none
   let op ← Op.parse? opS
   let stack ← (← tagged? "stack" stackS).mapM Pop.parse?
@@ -249,7 +283,71 @@ def handleCase (input implOut : Sexp) : Option CaseResult := do
     | _, _ => List.range all.length
   let (mstack, mout) := step op w stack
   let model := outToSexp mstack mout
-  let agree := legalB w all.length && Sexp.beq model implOut
+  let agree := legalB w all.length &&
+    (Sexp.beq model implOut || agreeUpToOrder op mstack mout stack' out ||
+      agreeOutsideDomain op w stack stack' out)
   pure { agree, cls := violation op stack stack' out, model }
+
+/-! ### Frequency oracle for `RandomReplacement` ("mu random ones")
+
+The harness runs the real component `runs` times with different seeds on `a` parents and `b`
+offspring and reports, per input position, how often it survived (`counts`), per pair of positions
+how often both survived (`pairs`, upper triangle row by row), the number of distinct kept *sets* and the
+number of runs that did not return `min mu n` individuals (`bad`).  Under a uniform shuffle
+(`random_replacement_uniform_survival`) position `i` survives with probability `k/n`,
+`k = min mu n`; a pair survives with probability `k(k-1)/(n(n-1))`.  Tolerance: six standard
+deviations of the binomial count plus one. -/
+
+def within (runs : Nat) (p : Float) (c : Nat) : Bool :=
+  let m := runs.toFloat * p
+  let sd := Float.sqrt (runs.toFloat * p * (1 - p))
+  Float.abs (c.toFloat - m) ≤ 6 * sd + 1
+
+def freqViolation (n k runs : Nat) (counts pairs : List Nat) (distinct : Nat) : Option String :=
+  let p := k.toFloat / n.toFloat
+  let q := (k * (k - 1)).toFloat / (n * (n - 1)).toFloat
+  if k ≥ 1 && k < n && runs ≥ 2 && distinct < 2 then some "seed-independent"
+  else if n ≥ 1 && !counts.all (within runs p) then some "not-uniform"
+  else if n ≥ 2 && !pairs.all (within runs q) then some "not-uniform-pair"
+  else none
+
+def natArg (tag : String) (s : Sexp) : Option Nat := do
+  match ← tagged? tag s with
+  | [x] => nat? x
+  | _ => none
+
+/-- Input `(freq (mu M) (a A) (b B) (runs N) (seed S))`, output
+`((counts c*) (pairs p*) (distinct D) (bad B))`. -/
+def handleFreq (args : List Sexp) (implOut : Sexp) : Option CaseResult := do
+  let (muS, aS, bS, runsS) ← match args with
+    | [m, a, b, r, _] => some (m, a, b, r)
+    | _ => none
+  let mu ← natArg "mu" muS
+  let a ← natArg "a" aS
+  let b ← natArg "b" bS
+  let runs ← natArg "runs" runsS
+  let (cS, pS, dS, badS) ← match implOut with
+    | .list [c, p, d, x] => some (c, p, d, x)
+    | _ => none
+  let counts ← (← tagged? "counts" cS).mapM nat?
+  let pairs ← (← tagged? "pairs" pS).mapM nat?
+  let distinct ← natArg "distinct" dS
+  let bad ← natArg "bad" badS
+  let n := a + b
+  let k := min mu n
+  -- what the model fixes whatever the witnesses are: every run keeps exactly k positions
+  let sum := runs * k
+  let pairSum := runs * (k * (k - 1) / 2)
+  let agree := bad == 0 && counts.length == n && pairs.length == n * (n - 1) / 2 &&
+    counts.foldl (· + ·) 0 == sum && pairs.foldl (· + ·) 0 == pairSum
+  let model := Sexp.list [.list [.atom "sum", ofNat sum], .list [.atom "pairsum", ofNat pairSum],
+    .list [.atom "bad", ofNat 0]]
+  pure { agree, cls := freqViolation n k runs counts pairs distinct, model }
+
+def handleCase (input implOut : Sexp) : Option CaseResult :=
+  match input with
+  | .list (.atom "rep" :: args) => handleRep args implOut
+  | .list (.atom "freq" :: args) => handleFreq args implOut
+  | _ => none
 
 end MahfModel.Replacement
